@@ -6,5 +6,5 @@ open UtilModel
 
 def main (args : List String) : IO UInt32 :=
   driverMain [
-    mkEntry "conc" Conc.model Conc.Obs.parse [MonEntry.ofMonitor "C18" Conc.monC18] (cap := 1500)
+    mkEntry "conc" Conc.model Conc.Obs.parse [MonEntry.ofMonitor "C18" Conc.monC18] (cap := 800)
   ] args
